@@ -77,6 +77,10 @@ Full statement / proved / missing
   `C03_trans_rule_off`: with the rule off `asg` is transitive on ALL well-formed types without Unit — the by-specification rule is the
   only source of intransitivity.  Missing: nothing but Unit and, with the rule ON, Struct (permanent).  Transitivity is also checked on the implementation on related triples, sampled
   universe triples and EVERY triple of the positional universe (`lat.Positional`).
+* second-tier types brought inside the model in the extension round: Timestamp[min,max], Iterator[T], Runtime[runtime, name, pattern] are in ALL
+  fragments (every theorem above covers them); CALLABLE[params, return, block] is inside the model (rule `callAcc`: parameters and block compared in
+  reverse, absent parts) with reflexivity (`C03_refl_all`), equal types (`C03_refl_eq_all`), laws and monotonicity covering it, but OUTSIDE the
+  fragments of transitivity: `C03_trans_fails_callable` (known finding C03-trans-callable-top — a genuine intransitivity through the default Callable).
 * no fault: `asg` and `tyEq` are total functions without a fault constructor; the nil dereference of `Tuple.Equals` was repaired (5e6c612).
 -/
 namespace Pcore.Lat
@@ -419,6 +423,18 @@ theorem C03_iterable_struct_repaired :
   · simp [asg, asgRecv, sameNullary, asgMembers, structSize, Rng.sub, Rng.pos, I64.max]
   · simp [asg, asgRecv, sameNullary, iterMembers]
   · simp [asg, asgRecv, sameNullary, Rng.sub]
+
+/-- KNOWN FINDING C03-trans-callable-top (Callable inside the model since the extension round; defect report
+    work/defect-C03-callable-return-only.md): `CallableType.IsAssignable` is not transitive through the default Callable.  A Callable that
+    constrains only its return type — `Callable` with return type Any, parameters and block absent; only the Go constructor makes one —
+    accepts the default Callable (return: Any accepts Any; parameters and block: both absent), the default accepts EVERY Callable (first
+    test of the rule), but the first rejects `Callable[String]` (the other says something about its parameters, this one nothing).
+    Holds for both settings of the Struct-from-Hash rule; Callable is therefore outside the fragments of transitivity (`Ty.TF` … `Ty.TA`). -/
+theorem C03_trans_fails_callable (sfh : Bool) :
+    asg idCfg3 sfh (.callable none (some .any) none) (.callable none none none) = true ∧
+    asg idCfg3 sfh (.callable none none none) (.callable (some (.tuple [.str] none)) none none) = true ∧
+    asg idCfg3 sfh (.callable none (some .any) none) (.callable (some (.tuple [.str] none)) none none) = false := by
+  refine ⟨?_, ?_, ?_⟩ <;> simp [asg, asgRecv, sameNullary]
 
 theorem C03_trans_false : ¬ C03_trans := by
   intro h
